@@ -86,13 +86,14 @@ def oracle(samples, o):
                 try:
                     root.parse_obj(copy.deepcopy(s))
                 except Exception as e:  # noqa
-                    msg = str(e).replace("\n", " ")[:300]
+                    full = str(e).replace("\n", " ")       # classification reads the whole text: inside a Union the date error comes late
+                    msg = full[:300]
                     tags = set()
                     none_container = "List[None]" in code or "Dict[str, None]" in code
                     if none_container and any(x in msg for x in ("none is not an allowed value", "value is not a valid list",
                                                                  "value is not a valid dict")):
                         tags.add("pydantic-optional-list-of-none")
-                    if any(x in msg for x in ("invalid date format", "invalid time format", "invalid datetime format",
+                    if any(x in full for x in ("invalid date format", "invalid time format", "invalid datetime format",
                                               "invalid date", "invalid time", "invalid datetime")) \
                             and intrinsic_date_mismatch(s, oo["rn"]):
                         tags.add("pydantic-date-grammar")
